@@ -65,10 +65,14 @@ def resolve(fn, e, use, pm, depth=0):
 
 def expand(fn, e, use, pm, depth=0):
     """Copy of e in which local names with a single reaching plain definition are replaced by that definition
-    (recursively), as long as the definition is call-free arithmetic / attribute access."""
+    (recursively), as long as the definition is call-free arithmetic / attribute access.  Names bound by a comprehension
+    inside e are left alone; free names inside comprehensions are expanded like any other."""
     class X(ast.NodeTransformer):
+        def __init__(self):
+            self.bound = []
+
         def visit_Name(self, n):
-            if not isinstance(n.ctx, ast.Load) or depth > 6:
+            if not isinstance(n.ctx, ast.Load) or depth > 6 or any(n.id in b for b in self.bound):
                 return n
             ds = reaching_definitions(fn.node, n.id, use, pm)
             if len(ds) == 1 and ds[0][1] is not None and ds[0][2] == 'assign':
@@ -78,10 +82,20 @@ def expand(fn, e, use, pm, depth=0):
                     return expand(fn, v, ds[0][0], pm, depth + 1)
             return n
 
-        def visit_ListComp(self, n):
-            return n
+        def _comp(self, n):
+            names = set()
+            for g in n.generators:
+                names |= {x.id for x in ast.walk(g.target) if isinstance(x, ast.Name)}
+            self.bound.append(names)
+            try:
+                return self.generic_visit(n)
+            finally:
+                self.bound.pop()
 
-        visit_GeneratorExp = visit_SetComp = visit_DictComp = visit_Lambda = visit_ListComp
+        visit_ListComp = visit_GeneratorExp = visit_SetComp = visit_DictComp = _comp
+
+        def visit_Lambda(self, n):
+            return n
     return X().visit(copy.deepcopy(e))
 
 
